@@ -757,7 +757,7 @@ var _ = sort.Ints
 func main() {
 	mon.Main(mon.Options{
 		Property: "C19", Level: "exploration",
-		Rule: "selection: every multiset of <= 4 peer tips over (height 1..2, maxHeightPrevoted 0..1, 3 block ids) exhaustively plus random larger ones, each asked 30-40 times (the final pick is random) against the three-filter rule of the statement; handlers: called with a capturing ResponseWriter on nodes with chains of 5..170 blocks (beyond the 103 cap and the block cache), id lists mixing on-chain and foreign ids; convergence: two real nodes with started libp2p connections on distinct loopback addresses, shared prefix (also 0-2 blocks: fork right after genesis), own fork also at the finalized height or longer-but-worse than the peer's chain (an offer whose fork point lies within two rounds of both tips must be followed at once), optional own fork on the syncing node, peer 1..2 rounds (fast sync) or further (block sync) ahead, honest peer or a peer serving a segment with an invalid state root / bad signature / truncated tail; finalized blocks of the syncing node re-read afterwards. non-trivial+distinct = (tips, distinct ids, best frequency) / (query shape) / (peer mode, fork depth, distance, sync kind)",
+		Rule: "selection: every multiset of <= 4 peer tips over (height 1..2, maxHeightPrevoted 0..1, 3 block ids) exhaustively plus random larger ones, each asked 30-40 times (the final pick is random) against the three-filter rule of the statement; handlers: called with a capturing ResponseWriter on nodes with chains of 5..170 blocks (beyond the 103 cap and the block cache), id lists mixing on-chain and foreign ids; convergence: two real nodes with started libp2p connections on distinct loopback addresses, shared prefix (also 0-2 blocks: fork right after genesis), own fork also at the finalized height or longer-but-worse than the peer's chain (an offer whose fork point lies within two rounds of both tips must be followed at once), optional own fork on the syncing node, peer 1..2 rounds (fast sync) or further (block sync) ahead, honest peer or a peer serving a segment with an invalid state root / bad signature / truncated tail; finalized blocks of the syncing node re-read afterwards; converge3: three real nodes, block sync triggered by a block from a better but not the best connected peer, the best peer on another branch: the node must end on the best peer's tip. non-trivial+distinct = (tips, distinct ids, best frequency) / (query shape) / (peer mode, fork depth, distance, sync kind)",
 		Assumptions: []string{
 			"convergence runs use real sockets on loopback; verdicts are read from chain state after Sync returned, never from elapsed time (watchdog 240 s + deadlock rule)",
 			"the scripted ABI stands in for the application on both nodes",
@@ -768,5 +768,6 @@ func main() {
 		selection(c)
 		handlers(c)
 		convergence(c)
+		convergence3(c)
 	})
 }
